@@ -87,9 +87,15 @@ def make_classes():
             self.seen = []       # observable application-level deliveries
             self.errors = []     # DISCONNECT reason codes received
 
+        force = None         # (outCipher, inCipher, outMAC, inMAC): per-direction algorithms keyed directly
+
         def ssh_KEXINIT(self, packet):
             r = transport.SSHTransportBase.ssh_KEXINIT(self, packet)
             if r is not None:
+                if self.force is not None:
+                    # RFC 4253 negotiates each direction separately; the transport can only *offer* one list for
+                    # both, so asymmetric pairs are installed directly (SSHCiphers keyed directly, as designed)
+                    self.nextEncryptions = transport.SSHCiphers(*self.force)
                 self._keySetup(SECRET, HASH)
             return r
 
@@ -169,6 +175,15 @@ def restrict(t, plan):
     t.supportedCompressions = [z]
 
 
+def force_dirs(t, plan, sender_side):
+    """Asymmetric plans carry the sender's incoming algorithms as cipher_in / mac_in."""
+    if "cipher_in" not in plan:
+        return
+    co, ci = plan["cipher"].encode(), plan["cipher_in"].encode()
+    mo, mi = plan["mac"].encode(), plan["mac_in"].encode()
+    t.force = (co, ci, mo, mi) if sender_side else (ci, co, mi, mo)
+
+
 def widen(t, plan):
     # 'none' is supported but not offered by default; the documented way to enable it
     c, m, z = algs(plan)
@@ -188,6 +203,7 @@ def build_wire(plan):
     try:
         s = Keyed()                               # server role: servers may send lines before the version line
         restrict(s, plan)
+        force_dirs(s, plan, True)
         ts = WT()
         s.makeConnection(ts)                      # version line, KEXINIT
         if len(ts.writes) != 2:
@@ -298,11 +314,13 @@ def run_case(plan, cuts, w=None):
     try:
         r = Client()
         widen(r, plan)
+        force_dirs(r, plan, False)
         tr = WT()
         r.makeConnection(tr)
         r.setService(Service(r.seen))
         d = Keyed()                                # the peer's decoder of whatever the receiver writes
         restrict(d, plan)
+        force_dirs(d, plan, True)
         d.makeConnection(WT())
         fed = [0, 0]                               # writes of tr already given to d, entries of r.seen already logged
 
@@ -381,7 +399,7 @@ def gen_packets(rng, n, kinds, sizes, seed0, nums):
     return out
 
 
-SIZES = [lambda r: 0, lambda r: 1, lambda r: r.randint(2, 20), lambda r: r.randint(2, 20), lambda r: r.choice([3, 11, 27, 7, 15, 23]),
+SIZES = [lambda r: 0, lambda r: 1, lambda r: r.randint(0, 47), lambda r: r.randint(0, 47), lambda r: r.choice([3, 11, 27, 7, 15, 23]),
          lambda r: r.randint(20, 300), lambda r: r.randint(20, 300), lambda r: r.randint(300, 3000), lambda r: r.randint(3000, 40000)]
 SMALL = SIZES[:7]
 
@@ -600,7 +618,7 @@ def report(ctx, traces, rej):
         e = t["ev"][x.reached] if x.reached < len(t["ev"]) else None
         ctx.violation(fingerprint(t, x),
                       "real SSHTransportBase execution not explained by SshPackets.tla at event %d: %s (cipher=%s mac=%s comp=%s banners=%s tamper=%s/%s)"
-                      % (x.reached, e, t["plan"]["cipher"], t["plan"]["mac"], t["plan"]["comp"], t["plan"]["banners"], t["cfg"]["tj"], t["cfg"]["treg"]),
+                      % (x.reached, e, t["plan"]["cipher"] + ("<-" + t["plan"]["cipher_in"] if "cipher_in" in t["plan"] else ""), t["plan"]["mac"], t["plan"]["comp"], t["plan"]["banners"], t["cfg"]["tj"], t["cfg"]["treg"]),
                       dict(plan=t["plan"], cuts=t["cuts"], rejected_at=x.reached))
 
 
@@ -627,7 +645,24 @@ def run(ctx):
             w = build_wire(plan)
             cuts = gen_cuts(ctx.rng, w, len(w["wire"]))
             traces.append(run_case(plan, cuts, w))
-    ctx.log("recorded %d random executions over %d configurations" % (len(traces), len(offered) + len(extra)))
+    # ordered pairs (cipher out, cipher in) x MACs: the two directions of a connection are negotiated separately
+    names = sorted(set(c for c, m, z in offered)) + ["none"]
+    macs = sorted(set(m for c, m, z in offered))
+    pairs = [(a, b) for a in names for b in names if a != b]
+    nasym = 0
+    for (a, b) in pairs:
+        for mo in (macs if not ctx.quick else [ctx.rng.choice(macs)]):
+            for i in range(ctx.pick(5, 12)):
+                seed += 1
+                plan = gen_plan(ctx.rng, a, mo, ctx.rng.choice(["none", "zlib"]), seed, big=False)
+                plan["cipher_in"] = b
+                plan["mac_in"] = ctx.rng.choice(macs + ["none"])
+                w = build_wire(plan)
+                traces.append(run_case(plan, gen_cuts(ctx.rng, w, len(w["wire"])), w))
+                nasym += 1
+    ctx.extra["asymmetric_direction_pairs"] = len(pairs)
+    ctx.extra["asymmetric_traces"] = nasym
+    ctx.log("recorded %d random executions over %d configurations + %d ordered cipher pairs" % (len(traces), len(offered) + len(extra), len(pairs)))
     # every single split point of one wire per chosen configuration (with banner lines)
     sweep_cfgs = ctx.pick([offered[0], offered[-1]], offered[::6])
     nsweep = 0
